@@ -90,7 +90,7 @@ def m_object(c, binp, tier, edges=True, hist=True, full=True, parts=("U", "T", "
                                       dict(Part=part, Mode="edges", K=0, Start=start), OBJ_INV, binp=binp, workers=10,
                                       expect_cases="transitions"))
     if hist:
-        ks = {"quick": {"U": 2, "T": 2, "X": 3, "Id": 2}, "thorough": {"U": 2, "T": 3, "X": 4, "Id": 3}}[tier]
+        ks = {"quick": {"U": 3, "T": 4, "X": 5, "Id": 4}, "thorough": {"U": 4, "T": 5, "X": 6, "Id": 5}}[tier]
         for part in parts:
             c.add_model(run_model("%s-obj-hist-%s" % (c.prop, part), "MC_Object",
                                   dict(Part=part, Mode="hist", K=ks[part], Start="parsed"), OBJ_INV, binp=binp, workers=10,
@@ -102,6 +102,20 @@ def m_object(c, binp, tier, edges=True, hist=True, full=True, parts=("U", "T", "
         c.add_model(run_model("%s-obj-sim" % c.prop, "MC_Object", dict(Part="All", Mode="sim", K=depth, Start="parsed"),
                               OBJ_INV, binp=binp, workers=4, simulate="num=%d" % n, expect_cases=None,
                               env_extra={"VERIF_SEED": str(c.seed)}, extra_args=["-depth", str(depth + 2), "-seed", str(c.seed)]))
+
+
+OBJL_INV = ["TypeOK", "RoundTrip", "LikelyTouchesOnlyTheTriple", "Idempotent", "EmitHist"]
+
+
+def m_object_likely(c, binp, tier, k_quick=3, k_thorough=5):
+    """histories interleaving maximize/minimize with field assignment, over the real table"""
+    data_env()
+    k = k_quick if tier == "quick" else k_thorough
+    for start in ("parsed", "default"):
+        if tier == "quick" and start == "default":
+            k = min(k, 3)
+        c.add_model(run_model("%s-objlikely-%s-k%d" % (c.prop, start, k), "MC_ObjectLikely", dict(K=k, Start=start), OBJL_INV,
+                              binp=binp, workers=12, expect_cases="distinct-1", timeout=7200))
 
 
 def m_matches(c, binp, tier, kind="match"):
@@ -267,6 +281,7 @@ def C07(tier, seed):
     binp = build_harness(ALL)
     m_laws(c, tier)
     m_cldr(c, binp, tier, modes=("closure",))
+    m_object_likely(c, binp, tier)
     traces(c, binp, "hist", tier, quick_n=2500)
     traces(c, binp, "likely", tier, quick_n=1500)
     return c.finish(rule="laws (only adds, fills all three, false=>unchanged, idempotent) model-checked for every table over small subtag universes incl. unknown subtags; on the real table every closure triple is run through the library with variants and extensions attached and compared before/after/twice; maximize steps inside random histories are validated by Trace.tla",
@@ -278,6 +293,7 @@ def C08(tier, seed):
     binp = build_harness(ALL)
     m_laws(c, tier)
     m_cldr(c, binp, tier, modes=("closure",))
+    m_object_likely(c, binp, tier)
     traces(c, binp, "hist", tier, quick_n=2500)
     traces(c, binp, "likely", tier, quick_n=1500)
     return c.finish(rule="minimize laws (meaning preserved, no foreign subtag, first of {l, l-r, l-s}, idempotent, min.max=min, never longer) model-checked for every table over small universes; on the real table every closure triple through likelysubtags::minimize and the method, compared with MinimizeF",
@@ -297,6 +313,7 @@ def C10(tier, seed):
     c = Check("C10", tier, seed)
     binp = build_harness(ALL)
     m_object(c, binp, tier, edges=True, hist=True, full=True)
+    m_object_likely(c, binp, tier, k_quick=4)
     traces(c, binp, "hist", tier, quick_n=3000, thorough_n=20000)
     return c.finish(rule="LocaleObject.tla: every edge of the four component machines (arguments valid/boundary/invalid), every history up to K operations, the full product machine (invariants), simulated long behaviours, and seeded random histories of up to 60 operations from default() and parsed values; result, projection, text and is_empty compared after every step; non-trivial = operations applied",
                     assumptions=ASSUME_COMMON, exhaustive=True)
